@@ -7,6 +7,7 @@ and evaluate the property directly with an independent computation (atan2-based 
 great-circle distances; the closed form of the legs)."""
 import math
 import random
+import sys
 from collections import Counter
 
 import simimpl
@@ -95,6 +96,7 @@ def dynamic_pictures_impl(cfg, positions, self_index, dyn):
     changing in between. Returns the shots: where, time, true positions of all nodes, picture."""
     from gradysim.simulator.handler.timer import TimerHandler
     shots = []
+    album = []       # the pictures as returned (the very objects, not copies), kept to the end of the run
     holder = {}
     conf = CameraConfiguration(camera_reach=cfg["reach"], camera_theta=cfg["theta"],
                                facing_elevation=cfg["elevation"], facing_rotation=cfg["rotation"])
@@ -104,10 +106,12 @@ def dynamic_pictures_impl(cfg, positions, self_index, dyn):
     def shoot(proto, where):
         sim = holder["sim"]
         try:
-            pic = [v3bits(e["position"]) for e in proto.cam.take_picture()]
+            held = proto.cam.take_picture()
+            pic = [v3bits(e["position"]) for e in held]
             crash = None
         except Exception as e:
-            pic, crash = None, _exc(e)
+            held, pic, crash = None, None, _exc(e)
+        album.append(held)
         shots.append({"where": where, "t": proto.provider.current_time(),
                       "positions": [v3bits(sim.get_node(i).position) for i in range(n)],
                       "picture": pic, "crash": crash})
@@ -137,7 +141,19 @@ def dynamic_pictures_impl(cfg, positions, self_index, dyn):
     holder["sim"] = sim
     simimpl.quiet_logging()
     sim.start_simulation()
+    _reread(shots, album)
     return shots
+
+
+def _reread(shots, album):
+    """a picture that was returned is a statement about the moment it was taken: the caller may keep it (an
+    album, the previous frame).  Every kept picture is read again after all the later pictures were taken."""
+    for shot, held in zip(shots, album):
+        if held is not None:
+            try:
+                shot["later"] = [v3bits(e["position"]) for e in held]
+            except Exception as e:
+                shot["later"] = "unreadable: " + _exc(e)
 
 
 def fleet_pictures_impl(positions, fleet):
@@ -157,19 +173,23 @@ def fleet_pictures_impl(positions, fleet):
              for c in fleet["confs"]]
     cams = [CameraHardware(sim.get_node(ids[c["node"]]).protocol_encapsulator.protocol, confs[c["conf"]])
             for c in fleet["cams"]]
-    shots = []
+    shots, album = [], []
     for k, op in enumerate(fleet["ops"]):
         if op[0] == "face":
             try:
                 cams[op[1]].change_facing(op[2], op[3])
             except Exception as e:
                 shots.append({"op": k, "cam": op[1], "picture": None, "crash": "change_facing: " + _exc(e)})
+                album.append(None)
         else:
             try:
-                pic, crash = [v3bits(e["position"]) for e in cams[op[1]].take_picture()], None
+                held = cams[op[1]].take_picture()
+                pic, crash = [v3bits(e["position"]) for e in held], None
             except Exception as e:
-                pic, crash = None, _exc(e)
+                held, pic, crash = None, None, _exc(e)
             shots.append({"op": k, "cam": op[1], "picture": pic, "crash": crash})
+            album.append(held)
+    _reread(shots, album)
     return shots
 
 
@@ -259,11 +279,15 @@ class C19(Check):
             "instant) and a share with a fleet of 2-4 cameras in one simulation, built from 1-3 CameraConfiguration objects "
             "(mostly one object shared by all cameras), re-aimed one at a time with change_facing (at another node or "
             "anywhere) with pictures by the other cameras in between, every picture judged against the cone of the camera "
-            "that took it (the orientation it was constructed with or last given); non-trivial = a scene containing an "
+            "that took it (the orientation it was constructed with or last given); in moving scenes and fleets every "
+            "returned picture is kept (the object itself) and read again after all later pictures, facing changes and "
+            "scene changes: it must still be what was returned; 6% of the scenes with a legal but unusual reach (1e154..1e300, "
+            "float max, inf, negative, -0.0, 5e-324); non-trivial = a scene containing an "
             "on-axis node whose unclamped cosine, computed as the source does, exceeds 1 in magnitude")
     assumptions = ["a MobilityHandler is configured (without one take_picture returns [] by documented design)",
                    "the tolerance 1e-6 is a literal in camera.py; the model receives the same value",
-                   "reach, theta, elevation, rotation and all coordinates are finite floats",
+                   "theta, elevation, rotation and all coordinates are finite floats; the reach is any float that is not NaN "
+                   "(6% of the scenes: huge finite, infinite, negative, -0.0, denormal)",
                    "the oracle judges a node only if its angle differs from theta+tol by > 1e-9 (+ acos conditioning) and its "
                    "distance from reach by > 1e-9 relative; integer-lattice scenes are judged exactly at the reach",
                    "in a fleet all cameras are constructed before the first change_facing, so the orientation a camera is "
@@ -416,6 +440,12 @@ class C19(Check):
         if r.random() < 0.5:
             r.shuffle(order)
         positions = [pos[j] for j in order]
+        if r.random() < 0.06:
+            # legal but unusual reach values: "unlimited" spelt as a huge finite float or as infinity, a camera
+            # switched off by a negative reach (nothing is at a distance <= a negative number)
+            reach = r.choice([1e200, sys.float_info.max, math.inf, 1e154, 1.5e154, 1e300, -reach, -1.0, -0.0,
+                              -max(reach, 1.0) * 4, 5e-324])
+            cls = cls + "-odd-reach"
         case = {"kind": "camera", "label": label, "cls": cls,
                 "cfg": {"reach": fbits(reach), "theta": fbits(theta), "elevation": fbits(elev), "rotation": fbits(rot)},
                 "selfIndex": order.index(self_index), "positions": [v3bits(p) for p in positions], "shift": None}
@@ -570,6 +600,21 @@ class C19(Check):
                        f"(its configuration object is held by {shared} camera(s)); operations so far "
                        f"{fleet['ops'][:k + 1]}] ")
                 self._judge_scene(c, positions, node, shot["picture"], fails, tag=tag)
+        for leg, what in (("dynamic", "moving scene"), ("fleet", "fleet")):
+            shots = impl.get(leg) or []
+            for j, shot in enumerate(shots):
+                later = shot.get("later")
+                if later is None or shot.get("picture") is None:
+                    continue
+                if isinstance(later, str) or [list(p) for p in later] != [list(p) for p in shot["picture"]]:
+                    at = f"in handle_{shot['where']} at t={shot['t']}" if leg == "dynamic" else \
+                         f"by camera {shot['cam']} (operation {shot['op']})"
+                    now = later if isinstance(later, str) else [bitsv3(p) for p in later][:6]
+                    fails.append(("C19:picture-rewritten", f"[{what}] the picture no. {j} taken {at} was "
+                                  f"{[bitsv3(p) for p in shot['picture']][:6]} ({len(shot['picture'])} entries) when it was "
+                                  f"returned; kept by the caller (not copied) and read again after the "
+                                  f"{len(shots) - j - 1} later operations it holds {now}"))
+                    break
         sh = impl.get("shifted")
         if sh:
             t = bitsv3(case["shift"]["v"])
@@ -640,6 +685,17 @@ class C19(Check):
                 acc.get("translated_" + ("exact" if case["shift"]["exact"] else "clear"), 0) + 1
         if case.get("dynamic"):
             acc["moving_scenes"] = acc.get("moving_scenes", 0) + 1
+        for leg in ("dynamic", "fleet"):
+            shots = [sh for sh in impl.get(leg) or [] if sh.get("later") is not None and sh.get("picture") is not None]
+            by_cam = {}
+            for sh in shots:
+                by_cam.setdefault(sh.get("cam", 0), []).append([list(p) for p in sh["picture"]])
+            acc["kept_pictures_reread"] = acc.get("kept_pictures_reread", 0) + len(shots)
+            if any(any(a != b for a, b in zip(pics, pics[1:])) for pics in by_cam.values()):
+                acc[f"{leg}_camera_with_consecutive_pictures_differing"] = \
+                    acc.get(f"{leg}_camera_with_consecutive_pictures_differing", 0) + 1
+        if not (0.0 <= cfg["reach"] < 1e100) or math.copysign(1.0, cfg["reach"]) < 0 or cfg["reach"] == 5e-324:
+            acc["odd_reach"] = acc.get("odd_reach", 0) + 1
         fleet = self.fleet_of(case)
         if fleet:
             acc["fleets"] = acc.get("fleets", 0) + 1
@@ -825,7 +881,8 @@ class C20(Check):
                   "after any history heads every sender for the converted ORIGINAL target (every scalar type).  The 1% band for 60 < |lat0| <= 80 deg is supported by the sampled "
                   "comparison of this check only.")
     rule = ("references over latitudes +-80 deg and all longitudes, 2-8 targets within 5 km in all four quadrants with unequal "
-            "offsets, mirror pairs straddling the reference meridian / parallel, targets on the axes, targets with zero "
+            "offsets, about one reference in seven with its longitude in the 0..360 convention (181..359, targets in the same "
+            "convention on both sides of it), mirror pairs straddling the reference meridian / parallel, targets on the axes, targets with zero "
             "horizontal offset (the reference itself, points straight above / below it) and targets sharing exactly one "
             "coordinate with the reference; in a share of the cases the same targets are converted and flown under 1-3 further "
             "references in the same process (other launch sites, the first reference again); bit-level agreement of "
@@ -861,6 +918,12 @@ class C20(Check):
         else:
             lat0 = r.choice([-1, 1]) * r.uniform(60, 80)
         lon0 = r.choice([r.uniform(-179, 179), float(r.choice([0, 20, -20, 90, 179, -179]))])
+        # (own random stream)  longitudes in the 0..360 "degrees east" convention: a site in the western hemisphere
+        # is written 181..359 (e.g. 312.07 for 47.93 W); the targets and further references, derived from the
+        # reference by offsets, are in the same convention
+        r360 = random.Random(stable_hash("C20", "lon360", label))
+        if lon0 < -1.0 and r360.random() < 0.3:
+            lon0 = round(lon0 + 360.0, 2) if r360.random() < 0.5 else lon0 + 360.0
         alt0 = r.choice([0.0, r.uniform(0, 500)])
         ref = (lat0, lon0, alt0)
         mdeg = 180.0 / (math.pi * EARTH_R)        # degrees of latitude per metre
@@ -1159,6 +1222,11 @@ class C20(Check):
         acc["targets"] = acc.get("targets", 0) + len(case["targets"])
         b = "lat<=60" if abs(ref[0]) <= 60 else "lat<=80"
         acc[b] = acc.get(b, 0) + 1
+        if ref[1] > 180:
+            acc["reference_longitude_0_360_convention"] = acc.get("reference_longitude_0_360_convention", 0) + 1
+            if case.get("goto"):
+                acc["goto_with_reference_longitude_0_360_convention"] = \
+                    acc.get("goto_with_reference_longitude_0_360_convention", 0) + 1
         for t in case["targets"]:
             q = self.quadrant(ref, bitsv3(t))
             name = "quadrant_" + ("N" if q[0] else "S") + ("E" if q[1] else "W")
